@@ -121,7 +121,10 @@ def putStrArray (k : Kind) (e : Endian) (ss : List (List UInt8)) : Option (List 
 
 /-- `StreamBuffer << T[N]` (commit 7c56539): `for (i < N) *this << x[i]` — item by item in every byte order
     (before, the generic `operator<<(const T&)` reversed all `N*sizeof(T)` bytes in the non-native order).
-    File and Socket have no such operator (a C array does not compile there). -/
+    File and Socket have no such operator (a C array does not compile there), and a `char[N]` never gets here: it is a C
+    string for `operator<<(char*)` (`.cstr`).  The function is total over `k` and `t`, but it describes the library only for
+    `k = .sb ∧ t ≠ .ch` — the predicate `C16.WF` the history theorems assume; driver and harness answer `na` / `bad-op`
+    outside it. -/
 def putCArray (k : Kind) (e : Endian) (t : Ty) (vs : List Nat) : List UInt8 :=
   vs.flatMap (putScalar k e t)
 
@@ -137,7 +140,7 @@ inductive WOp where
   | bytes (bs : List UInt8)      -- ByteArray / String: `write(data, length)`
   | cstr (bs : List UInt8)       -- const char*
   | strArray (ss : List (List UInt8))   -- Array<String>
-  | carray (t : Ty) (vs : List Nat)     -- T[N] (StreamBuffer)
+  | carray (t : Ty) (vs : List Nat)     -- T[N] (StreamBuffer only, T ≠ char: `C16.WF`)
 deriving Repr
 
 /-- new byte order and the bytes appended by the operation -/
